@@ -5,8 +5,14 @@ cd "$(dirname "$0")/.."
 export GOWORK=off GOFLAGS=-mod=mod GOPROXY=off GOSUMDB=off GOTOOLCHAIN=local CGO_CFLAGS="-w -O2 -g"
 mkdir -p bin evidence replays
 if [ -d extract ]; then (cd extract && go build -o ../bin/extract . && ../bin/extract -repo "${VERIF_REPO:-/repo}" -out ../lean/ObiVerif/Gen); fi
-(cd lean && lake build)
+(cd lean && lake build $(ls Driver/Main*.lean | sed 's|Driver/Main\(.*\)\.lean|vm_\1|'))
+# theorems: a failure here is reported by the property's own check, not by setup
+(cd lean && lake build ObiVerif) || echo "setup: WARNING some proof modules do not build"
 cp "${VERIF_REPO:-/repo}/go.sum" harness/go.sum
-(cd harness && go build -tags verif -o ../bin/harness . 2>&1 | grep -v warning || true)
-test -x bin/harness
+for f in harness/c[0-9]*.go; do
+  id=$(basename "$f" .go)
+  ID=$(echo "$id" | tr c C)
+  (cd harness && go build -tags "verif,$id" -o "../bin/harness_$ID" . 2>&1 | grep -v "warning\|^#\|cgo-gcc\|In file\|note:\|^ " || true)
+  test -x "bin/harness_$ID"
+done
 echo setup ok
